@@ -190,12 +190,15 @@ type Style struct {
 	Folded       bool
 	// ScalarAnchors (with Anchors): repeated string values are anchored and aliased as well
 	ScalarAnchors bool
+	// SmallAnchors (with Anchors): one-member subtrees ({type: string}) are anchored and aliased too,
+	// so that nearly every schema position of a document is reached through an alias somewhere
+	SmallAnchors bool
 }
 
 var numLikeKey = regexp.MustCompile(`^([0-9][0-9A-Za-z_.+-]*|true|false|null|True|NULL)$`)
 
 func (st Style) String() string {
-	return fmt.Sprintf("%s/quote=%s/comments=%v/indent=%d/keyquote=%v/marker=%v/anchors=%v/plainnumkeys=%v", st.Format, st.Quote, st.Comments, st.Indent, st.KeyQuote, st.Marker, st.Anchors, st.PlainNumKeys) + fmt.Sprintf("/blockscalars=%v/folded=%v/scalaranchors=%v", st.BlockScalars, st.Folded, st.ScalarAnchors)
+	return fmt.Sprintf("%s/quote=%s/comments=%v/indent=%d/keyquote=%v/marker=%v/anchors=%v/plainnumkeys=%v", st.Format, st.Quote, st.Comments, st.Indent, st.KeyQuote, st.Marker, st.Anchors, st.PlainNumKeys) + fmt.Sprintf("/blockscalars=%v/folded=%v/scalaranchors=%v/smallanchors=%v", st.BlockScalars, st.Folded, st.ScalarAnchors, st.SmallAnchors)
 }
 
 func (st Style) IsJSON() bool { return st.Format == "json" || st.Format == "jsonind" }
@@ -407,6 +410,7 @@ func (st Style) emitFlow(n *Node, w *writer) {
 }
 
 type anchors struct {
+	min   int // least number of members of a subtree that is anchored
 	count map[string]int
 	name  map[string]string
 	next  int
@@ -438,7 +442,7 @@ func countSubtrees(n *Node, a *anchors) {
 	if n.Kind == 'v' && n.Tag == "str" && len(n.Value) >= 1 && len(n.Value) < 40 && !strings.ContainsAny(n.Value, "\n\r") {
 		a.count["scalar:"+n.Value]++
 	}
-	if n.Kind != 'v' && len(n.Vals) >= 2 {
+	if n.Kind != 'v' && len(n.Vals) >= a.min {
 		var sb strings.Builder
 		canon(n, &sb)
 		a.count[sb.String()]++
@@ -451,7 +455,7 @@ func countSubtrees(n *Node, a *anchors) {
 func (st Style) emitBlock(n *Node, w *writer, ind string, inline bool, a *anchors) {
 	pad := strings.Repeat(" ", st.Indent)
 	// anchors / aliases for repeated composite subtrees
-	if a != nil && n.Kind != 'v' && len(n.Vals) >= 2 {
+	if a != nil && n.Kind != 'v' && len(n.Vals) >= a.min {
 		var sb strings.Builder
 		canon(n, &sb)
 		key := sb.String()
@@ -620,7 +624,10 @@ func (st Style) Emit(n *Node) string {
 	default:
 		var a *anchors
 		if st.Anchors {
-			a = &anchors{count: map[string]int{}, name: map[string]string{}}
+			a = &anchors{min: 2, count: map[string]int{}, name: map[string]string{}}
+			if st.SmallAnchors {
+				a.min = 1
+			}
 			countSubtrees(n, a)
 		}
 		if st.Indent == 0 {
@@ -656,6 +663,8 @@ func AllStyles() []Style {
 	}
 	// repeated string values anchored and aliased
 	styles = append(styles, Style{Format: "block", Quote: "plain", Indent: 2, Anchors: true, ScalarAnchors: true}, Style{Format: "block", Quote: "double", Indent: 4, Anchors: true, ScalarAnchors: true, KeyQuote: true})
+	// one-member subtrees anchored and aliased
+	styles = append(styles, Style{Format: "block", Quote: "plain", Indent: 2, Anchors: true, SmallAnchors: true}, Style{Format: "block", Quote: "single", Indent: 4, Anchors: true, SmallAnchors: true, ScalarAnchors: true, Comments: true})
 	// strings with line breaks as block scalars
 	styles = append(styles, Style{Format: "block", Quote: "plain", Indent: 2, BlockScalars: true}, Style{Format: "block", Quote: "double", Indent: 4, BlockScalars: true, Folded: true, KeyQuote: true},
 		Style{Format: "block", Quote: "single", Indent: 2, BlockScalars: true, Folded: true, Comments: true, Marker: true})
